@@ -121,4 +121,26 @@ theorem relisten_works (pre : List Op) (k n : Nat) (h : outOpenAfter pre = true)
 
 example : outOpenAfter [.openOut, .openIn, .listen, .send 1] = true := by decide
 
+/-! ## process-backed driver: lock discipline of `drivers/midicatdrv/{in,out}.go` as the source is now -/
+
+/-- Every control path of every method and function literal of the process-backed ports is well nested:
+    it never locks (or read-locks) a mutex it holds, never unlocks one it does not hold that way, never calls
+    a method of the same port that takes a mutex held at the call, and holds nothing when it returns.  The
+    table is re-read from the source on every run; `decide` evaluates the checker on the complete table
+    (restoring the inner `o.Lock()` of DESIGN §7-16 in `fireCmd`'s start-failure path makes this fail). -/
+theorem lockpaths_ok : checkAll Facts.lockPaths = true := by decide
+
+/-- the table is not vacuous: both `fireCmd`s are in it with at least three paths each that take the port
+    mutex (already running / helper cannot be started / started), and the checker does reject the double
+    lock of §7-16 (Lock, Lock, Unlock, return) -/
+theorem lockpaths_cover :
+    3 ≤ lockingPaths Facts.lockPaths Facts.lockPathsInFireCmd ∧
+    3 ≤ lockingPaths Facts.lockPaths Facts.lockPathsOutFireCmd := by decide
+
+example : checkPath [] [] [(0, 0), (0, 0), (1, 0), (5, 0)] = false := by decide
+example : checkPath [] [] [(0, 0), (5, 0)] = false := by decide
+example : checkPath [] [] [(1, 0), (5, 0)] = false := by decide
+/-- calling a method that read-locks the port mutex while holding it -/
+example : checkAll [(0, [[(0, 0), (4, 1), (1, 0), (5, 0)]]), (1, [[(2, 0), (3, 0), (5, 0)]])] = false := by decide
+
 end Midi.C17
